@@ -695,7 +695,7 @@ func (e *Engine) execNext(st *State, f *Frame, x *ssa.Next) (action, []*State) {
 		}
 		nonASCII := b.And(has, b.Not(b.Ult(ct, b.BV(8, 0x80))))
 		if !nonASCII.IsFalse() {
-			e.obls = append(e.obls, Obligation{oblPoison, b.And(e.conj(st.pc), nonASCII), "unsupported: range over non-ASCII string", e.posStr(x.Pos())})
+			e.newObl(oblPoison, st, nonASCII, "unsupported: range over non-ASCII string", e.posStr(x.Pos()))
 			e.addPC(st, b.Not(nonASCII))
 		}
 		f.locals[x] = TupleV{Scalar{has}, Scalar{io.idx}, Scalar{b.Zext(ct, 32)}}
